@@ -27,6 +27,7 @@ PRE_NUM = gates.COQ_HEADER + 'From VF Require Import Sim.Ref Sim.Measure Base.Tr
 PRE_TRACE = ('From Coq Require Import List Bool.\nFrom VF Require Import Base.Harness Base.Trace.\nImport ListNotations.\n'
              'Definition T := mkTop.\n')
 
+GAUGE_SEED = [0]
 IGN = 'ign'          # the tag listed in tags_to_ignore
 KEEP = 'keep'        # an innocent tag
 UNROLL = 'unroll'    # tags_to_check for the unroll primitives
@@ -162,6 +163,11 @@ def terminally_measured(cirq, ops):
 
 def semantic_check(cirq, rng, ops_in, ops_out, contract='same'):
     """Gallina boolean comparing two flattened operation lists; returns (expr, kind) or raises opsem.Unsupported."""
+    if contract == 'drop_terminal':
+        # documented: "identity or X gates in place of terminal measurements": measuring the same qubits plainly reproduces the records
+        ops_out = list(ops_out) + [cirq.MeasurementGate(len(op.qubits), key=op.gate.key, qid_shape=cirq.qid_shape(op)).on(*op.qubits)
+                                   for op in ops_in if isinstance(op.gate, cirq.MeasurementGate)]
+        contract = 'same'
     qs_in = sorted({q for op in ops_in for q in op.qubits})
     extra = sorted({q for op in ops_out for q in op.qubits} - set(qs_in))
     if extra and contract != 'defer':
@@ -338,7 +344,117 @@ def gen_measured(cirq, rng, cc=True, confusion=True, mid=True, wires=None, max_d
     return c
 
 
-def gen_circuit(cirq, rng, kinds, tags=True, nest=True):
+def rand_1q(cirq, rng):
+    r = rng.random()
+    e = gates.draw_exp(rng)
+    if r < 0.2:
+        return cirq.Z ** e
+    if r < 0.35:
+        return cirq.X ** e
+    if r < 0.45:
+        return cirq.Y ** e
+    if r < 0.6:
+        return cirq.PhasedXPowGate(phase_exponent=gates.draw_exp(rng), exponent=e)
+    if r < 0.75:
+        return cirq.PhasedXZGate(x_exponent=e, z_exponent=gates.draw_exp(rng), axis_phase_exponent=gates.draw_exp(rng))
+    if r < 0.85:
+        return cirq.H
+    if r < 0.92:
+        return rng.choice([cirq.X, cirq.Y, cirq.Z, cirq.S, cirq.T, cirq.I])
+    return cirq.rz(gates.draw_angle(rng))
+
+
+def gen_layers(cirq, rng, twoq=None, n=None, depth=None, measured=False, cc=False):
+    """Alternating moments of single-qubit gates (some qubits idle) and two-qubit gates, optional measurements / control."""
+    n = n or rng.randint(2, 4)
+    qs = cirq.LineQubit.range(n)
+    twoq = twoq or [cirq.CZ, cirq.CZ ** 0.5, cirq.ISWAP, cirq.CNOT, cirq.SWAP, cirq.CZ ** gates.draw_exp(rng)]
+    moments = []
+    keys_seen = []
+    for d in range(depth or rng.randint(3, 7)):
+        r = rng.random()
+        if r < 0.5:
+            moments.append(cirq.Moment(rand_1q(cirq, rng).on(q) for q in qs if rng.random() < 0.7))
+        elif r < 0.9 or not measured:
+            order = list(qs)
+            rng.shuffle(order)
+            ops_ = []
+            for a, b in zip(order[::2], order[1::2]):
+                if rng.random() < 0.8:
+                    ops_.append(rng.choice(twoq).on(a, b))
+            rest = [q for q in qs if not any(q in o.qubits for o in ops_)]
+            for q in rest:
+                if rng.random() < 0.3:
+                    g = rng.choice([cirq.Z ** gates.draw_exp(rng), cirq.X, cirq.Y, cirq.Z, cirq.I])
+                    o = g.on(q)
+                    if cc and keys_seen and rng.random() < 0.5:
+                        o = o.with_classical_controls(rng.choice(keys_seen))
+                    ops_.append(o)
+            moments.append(cirq.Moment(ops_))
+        else:
+            q = rng.choice(qs)
+            key = rng.choice(['a', 'b'])
+            moments.append(cirq.Moment([cirq.measure(q, key=key)]))
+            keys_seen.append(key)
+    c = cirq.Circuit(moments)
+    if measured:
+        k = rng.randint(1, min(n, 2))
+        c.append(cirq.Moment([cirq.measure(*rng.sample(list(qs), k), key='m')]))
+    return c
+
+
+def gen_ejectable(cirq, rng, measured=False):
+    twoq = [cirq.CZ, cirq.CZ ** gates.draw_exp(rng), cirq.SWAP, cirq.ISWAP, cirq.ISWAP ** 0.5, cirq.CNOT, cirq.ZZ ** gates.draw_exp(rng),
+            cirq.FSimGate(gates.draw_angle(rng), gates.draw_angle(rng)), cirq.PhasedISwapPowGate(phase_exponent=gates.draw_exp(rng), exponent=rng.choice([1.0, 0.5, -1.0])),
+            cirq.SwapPowGate(exponent=rng.choice([1.0, -1.0, 3.0, 0.5]), global_shift=rng.choice([0.0, 0.5])),
+            cirq.ISwapPowGate(exponent=rng.choice([1.0, -1.0, 3.0]), global_shift=rng.choice([0.0, -0.5]))]
+    c = gen_layers(cirq, rng, twoq=twoq, measured=measured, cc=measured and rng.random() < 0.5)
+    return c
+
+
+def gen_param(cirq, rng):
+    import sympy
+    syms = [sympy.Symbol(n) for n in 'abcd']
+    n = rng.randint(2, 3)
+    qs = cirq.LineQubit.range(n)
+    ops_ = []
+    for _ in range(rng.randint(3, 9)):
+        r = rng.random()
+        sym = rng.choice(syms)
+        e = rng.choice([sym, sym, 2 * sym, sym + 0.25, -sym])
+        q = rng.choice(qs)
+        if r < 0.25:
+            ops_.append(cirq.Z(q) ** e)
+        elif r < 0.4:
+            ops_.append(cirq.X(q) ** e)
+        elif r < 0.5:
+            ops_.append(cirq.PhasedXPowGate(phase_exponent=rng.choice([e, 0.25]), exponent=rng.choice([1.0, 0.5, sym])).on(q))
+        elif r < 0.6:
+            a, b = rng.sample(list(qs), 2)
+            ops_.append(cirq.CZ(a, b) ** rng.choice([1.0, e, 0.5]))
+        elif r < 0.7:
+            a, b = rng.sample(list(qs), 2)
+            ops_.append(rng.choice([cirq.SWAP, cirq.ISWAP, cirq.CNOT])(a, b))
+        else:
+            ops_.append(rand_1q(cirq, rng).on(q))
+    c = cirq.Circuit()
+    for o in ops_:
+        c.append(o, strategy=cirq.InsertStrategy.NEW if rng.random() < 0.2 else cirq.InsertStrategy.EARLIEST)
+    return c
+
+
+GAUGE_TARGETS = {
+    'cz': lambda cirq, rng, mods: [cirq.CZ],
+    'sqrt_cz': lambda cirq, rng, mods: [cirq.CZ ** 0.5, cirq.CZ ** -0.5],
+    'iswap': lambda cirq, rng, mods: [cirq.ISWAP],
+    'sqrt_iswap': lambda cirq, rng, mods: [cirq.SQRT_ISWAP],
+    'zz': lambda cirq, rng, mods: [cirq.ZZ ** gates.draw_exp(rng), cirq.ZZ],
+    'cphase': lambda cirq, rng, mods: [cirq.CZ ** gates.draw_exp(rng), cirq.CZ, cirq.CZ ** round(rng.uniform(-2, 2), 3)],
+    'syc': lambda cirq, rng, mods: [mods['cirq_google'].SYC],
+}
+
+
+def gen_circuit(cirq, rng, kinds, tags=True, nest=True, mods=None):
     kind = rng.choice(kinds)
     if kind == 'unitary':
         c = gen_unitary(cirq, rng)
@@ -346,10 +462,34 @@ def gen_circuit(cirq, rng, kinds, tags=True, nest=True):
         c = gen_unitary(cirq, rng, qudits=True, fams=gates.CORE_FAMILIES)
     elif kind == 'terminal':
         c = gen_measured(cirq, rng, cc=False, mid=False)
+    elif kind == 'terminal-nc':
+        c = gen_measured(cirq, rng, cc=False, mid=False, confusion=False)
+    elif kind == 'measured-nc':
+        c = gen_measured(cirq, rng, confusion=False)
+    elif kind == 'measured-nocc':
+        c = gen_measured(cirq, rng, cc=False)
+    elif kind == 'ejectable':
+        c = gen_ejectable(cirq, rng)
+    elif kind == 'ejectable-measured':
+        c = gen_ejectable(cirq, rng, measured=True)
+    elif kind == 'param':
+        c = gen_param(cirq, rng)
+    elif kind == 'layers':
+        c = gen_layers(cirq, rng)
+    elif kind == 'layers-measured':
+        c = gen_layers(cirq, rng, measured=True)
+    elif kind.startswith('gauge:'):
+        parts = kind.split(':')
+        tw = GAUGE_TARGETS[parts[1]](cirq, rng, mods)
+        tw = tw * 3 + [cirq.CNOT, cirq.CZ ** 0.3]
+        c = gen_layers(cirq, rng, twoq=tw, measured=len(parts) > 2, cc=len(parts) > 2)
     else:
         c = gen_measured(cirq, rng)
     if rng.random() < 0.3:
         c.insert(rng.randint(0, len(c)), cirq.Moment())
+    if rng.random() < 0.25 and kind in ('unitary', 'ejectable', 'layers'):
+        qs = sorted(c.all_qubits())
+        c.insert(rng.randint(0, len(c)), cirq.Z(rng.choice(qs)) ** rng.choice([1e-10, 2.0, 1e-9, 4.0, 0.0]))
     return decorate(cirq, rng, c, tags=tags, nest=nest), kind
 
 
@@ -417,19 +557,123 @@ def make_configs(cirq, mods):
     C.append(Cfg('map_moments', 'identity', lambda c, context: t.map_moments(c, lambda m, i: m, deep=context.deep, tags_to_ignore=context.tags_to_ignore), 'reorder', kinds=RE, n=0.4))
     C.append(Cfg('map_operations', 'identity', lambda c, context: t.map_operations(c, lambda op, i: op, deep=context.deep, tags_to_ignore=context.tags_to_ignore), 'reorder', kinds=RE, n=0.4))
     C.append(Cfg('map_operations_and_unroll', 'identity', lambda c, context: t.map_operations_and_unroll(c, lambda op, i: op, deep=context.deep, tags_to_ignore=context.tags_to_ignore), 'reorder', kinds=RE, n=0.4))
+    # ---- semantic ----
+    U = ('unitary', 'measured', 'terminal', 'unitary')
+    def raises_documented(kind_of_error, when):
+        return lambda circuit, deep, ignore, e: isinstance(e, kind_of_error) and when(circuit, deep, ignore)
+    C.append(Cfg('expand_composite', '', ctx_call(t.expand_composite), 'semantic', kinds=U, sub_exempt=True))
+    C.append(Cfg('expand_composite', 'no_decomp=1q', ctx_call(t.expand_composite, no_decomp=lambda op: len(op.qubits) == 1), 'semantic', kinds=U, sub_exempt=True, n=0.5))
+    C.append(Cfg('eject_z', 'atol=0', ctx_call(t.eject_z), 'semantic', kinds=U + ('ejectable',), n=1.3))
+    C.append(Cfg('eject_z', 'atol=1e-8', ctx_call(t.eject_z, atol=1e-8), 'semantic', kinds=U + ('ejectable',), n=0.6))
+    C.append(Cfg('eject_z', 'eject_parameterized', ctx_call(t.eject_z, eject_parameterized=True), 'semantic', kinds=('param',), n=0.6))
+    C.append(Cfg('eject_phased_paulis', '', ctx_call(t.eject_phased_paulis), 'semantic', kinds=U + ('ejectable',), n=1.3))
+    C.append(Cfg('eject_phased_paulis', 'eject_parameterized', ctx_call(t.eject_phased_paulis, eject_parameterized=True), 'semantic', kinds=('param',), n=0.6))
+    C.append(Cfg('drop_negligible_operations', '', ctx_call(t.drop_negligible_operations), 'semantic', kinds=U))
+    C.append(Cfg('drop_diagonal_before_measurement', '', ctx_call(t.drop_diagonal_before_measurement), 'semantic', kinds=('measured', 'terminal', 'ejectable-measured')))
+    C.append(Cfg('merge_single_qubit_gates_to_phased_x_and_z', '', ctx_call(t.merge_single_qubit_gates_to_phased_x_and_z), 'semantic', kinds=U))
+    C.append(Cfg('merge_single_qubit_gates_to_phxz', '', ctx_call(t.merge_single_qubit_gates_to_phxz), 'semantic', kinds=U))
+    C.append(Cfg('merge_single_qubit_moments_to_phxz', '', ctx_call(t.merge_single_qubit_moments_to_phxz), 'semantic', kinds=U + ('layers',)))
+    for k in (1, 2, 3):
+        C.append(Cfg('merge_k_qubit_unitaries', f'k={k}', ctx_call(t.merge_k_qubit_unitaries, k=k), 'semantic', kinds=U, n=0.5))
+    C.append(Cfg('merge_k_qubit_unitaries', 'k=2,rewriter', ctx_call(t.merge_k_qubit_unitaries, k=2, rewriter=lambda cop: list(cop.mapped_circuit().all_operations())), 'semantic', kinds=U, n=0.5))
+    for k in (1, 2):
+        C.append(Cfg('merge_k_qubit_unitaries_to_circuit_op', f'k={k}', (lambda k: lambda c, context: t.merge_k_qubit_unitaries_to_circuit_op(c, k=k, tags_to_ignore=context.tags_to_ignore, deep=context.deep))(k), 'semantic', kinds=U, n=0.5))
+
+    def merge_func(op1, op2):
+        for op in (op1, op2):
+            if IGN in op.tags:
+                merge_func.saw_ignored = True
+            if not cirq.has_unitary(op) or cirq.is_measurement(op):
+                return None
+        qs = sorted(set(op1.qubits) | set(op2.qubits))
+        if len(qs) > 2:
+            return None
+        return cirq.MatrixGate(cirq.Circuit(op1, op2).unitary(qubit_order=qs)).on(*qs)
+    merge_func.saw_ignored = False
+    C.append(Cfg('merge_operations', 'unitaries<=2q', lambda c, context: t.merge_operations(c, merge_func, tags_to_ignore=context.tags_to_ignore, deep=context.deep), 'semantic', kinds=U, n=1.2))
+    C[-1].probe = merge_func
+
+    def can_merge(left, right):
+        ops_ = list(left) + list(right)
+        return all(cirq.has_unitary(o) and not cirq.is_measurement(o) for o in ops_) and len({q for o in ops_ for q in o.qubits}) <= 2
+    C.append(Cfg('merge_operations_to_circuit_op', 'unitaries<=2q', lambda c, context: t.merge_operations_to_circuit_op(c, can_merge, tags_to_ignore=context.tags_to_ignore, deep=context.deep), 'semantic', kinds=U))
+
+    def mergeable_moment(m):
+        return len(m) > 0 and all(len(o.qubits) == 1 and cirq.has_unitary(o) and not o.tags and not isinstance(o.untagged, cirq.CircuitOperation) for o in m)
+
+    def merge_two_moments(m1, m2):
+        if not (mergeable_moment(m1) and mergeable_moment(m2)):
+            return None
+        out = []
+        for q in sorted(m1.qubits | m2.qubits):
+            u = np.eye(2, dtype=complex)
+            for m in (m1, m2):
+                o = m.operation_at(q)
+                if o is not None:
+                    u = cirq.unitary(o) @ u
+            out.append(cirq.MatrixGate(u).on(q))
+        return cirq.Moment(out)
+    C.append(Cfg('merge_moments', '1q moments', lambda c, context: t.merge_moments(c, merge_two_moments, tags_to_ignore=context.tags_to_ignore, deep=context.deep), 'semantic', kinds=U + ('layers',), n=0.7))
+
+    def merge_batch(moments):
+        first, rest = moments[0], list(moments[1:])
+        while rest:
+            m = merge_two_moments(first, rest[0])
+            if m is None:
+                break
+            first, rest = m, rest[1:]
+        return first, rest
+    C.append(Cfg('merge_moments_batch', '1q moments', lambda c, context: t.merge_moments_batch(c, merge_batch, tags_to_ignore=context.tags_to_ignore, deep=context.deep), 'semantic', kinds=U + ('layers',), n=0.7))
+    C.append(Cfg('map_operations', 'decompose_once', lambda c, context: t.map_operations(c, lambda op, i: cirq.decompose_once(op, default=op) if not cirq.is_measurement(op) and not isinstance(op.untagged, cirq.CircuitOperation) else op, deep=context.deep, tags_to_ignore=context.tags_to_ignore), 'semantic', kinds=U, n=0.5))
+    C.append(Cfg('map_operations_and_unroll', 'decompose_once', lambda c, context: t.map_operations_and_unroll(c, lambda op, i: cirq.decompose_once(op, default=op) if not cirq.is_measurement(op) and not isinstance(op.untagged, cirq.CircuitOperation) else op, deep=context.deep, tags_to_ignore=context.tags_to_ignore), 'semantic', kinds=U, n=0.5))
+    C.append(Cfg('insertion_sort_transformer', '', ctx_call(t.insertion_sort_transformer), 'semantic', kinds=U, perm=True))
+    dd_deep = raises_documented(ValueError, lambda c, deep, ign: deep)
+    for schema in ('DEFAULT', 'XX_PAIR', 'X_XINV', 'YY_PAIR', 'Y_YINV'):
+        C.append(Cfg('add_dynamical_decoupling', f'schema={schema}', ctx_call(t.add_dynamical_decoupling, schema=schema), 'semantic', kinds=('layers', 'unitary', 'layers-measured'), expect_raise=dd_deep, n=0.3, ignore=False, nest=False))
+    C.append(Cfg('add_dynamical_decoupling', 'all moments', ctx_call(t.add_dynamical_decoupling, single_qubit_gate_moments_only=False), 'semantic', kinds=('layers', 'unitary', 'layers-measured'), expect_raise=dd_deep, n=0.6, ignore=False, nest=False))
+    C.append(Cfg('add_dynamical_decoupling', 'custom sequence', ctx_call(t.add_dynamical_decoupling, schema=(cirq.X, cirq.Y, cirq.X, cirq.Y)), 'semantic', kinds=('layers', 'unitary'), expect_raise=dd_deep, n=0.3, ignore=False, nest=False))
+    C.append(Cfg('optimize_for_target_gateset', 'CZTargetGateset', ctx_call(t.optimize_for_target_gateset, gateset=cirq.CZTargetGateset()), 'semantic', kinds=('unitary', 'terminal'), n=0.4))
+    C.append(Cfg('optimize_for_target_gateset', 'SqrtIswapTargetGateset', ctx_call(t.optimize_for_target_gateset, gateset=cirq.SqrtIswapTargetGateset()), 'semantic', kinds=('unitary', 'terminal'), n=0.3))
+    # ---- gauge compiling ----
+    gdeep = raises_documented(ValueError, lambda c, deep, ign: deep)
+    gc = cirq.transformers.gauge_compiling
+    def gauge_call(tr):
+        return lambda c, context: tr(c, context=context, prng=np.random.default_rng(GAUGE_SEED[0]))
+    for nm, tr, kind in (('CZGaugeTransformer', t.CZGaugeTransformer, 'gauge:cz'), ('SqrtCZGaugeTransformer', t.SqrtCZGaugeTransformer, 'gauge:sqrt_cz'),
+                         ('ISWAPGaugeTransformer', t.ISWAPGaugeTransformer, 'gauge:iswap'), ('SqrtISWAPGaugeTransformer', t.SqrtISWAPGaugeTransformer, 'gauge:sqrt_iswap'),
+                         ('SpinInversionGaugeTransformer', t.SpinInversionGaugeTransformer, 'gauge:zz'), ('CPhaseGaugeTransformer', gc.CPhaseGaugeTransformer, 'gauge:cphase'),
+                         ('CPhaseGaugeTransformerMM', t.CPhaseGaugeTransformerMM(), 'gauge:cphase'),
+                         ('SYCGaugeTransformer', mods['cirq_google'].transformers.SYCGaugeTransformer, 'gauge:syc')):
+        call = (lambda tr: lambda c, context: tr(c, context=context, rng_or_seed=GAUGE_SEED[0]))(tr) if nm.endswith('MM') else gauge_call(tr)
+        C.append(Cfg(nm, '', call, 'semantic', kinds=(kind, kind, kind + ':measured'), expect_raise=gdeep, n=0.6, nest=False))
+    # ---- special contracts ----
+    C.append(Cfg('defer_measurements', '', ctx_call(t.defer_measurements), 'special', kinds=('measured', 'measured', 'terminal', 'measured-nc'), contract='defer', sub_exempt=True, deep=False, n=1.5))
+    no_cc = raises_documented(ValueError, lambda c, deep, ign: any(cirq.control_keys(op) for op in flatten_ops(cirq, c)))
+    C.append(Cfg('dephase_measurements', '', lambda c, context: t.dephase_measurements(c, context=cirq.TransformerContext(deep=True, tags_to_ignore=context.tags_to_ignore)), 'special',
+                 kinds=('measured-nocc', 'terminal'), contract='average', sub_exempt=True, deep=False, expect_raise=no_cc))
+    def not_terminal(c, deep, ign):
+        return not c.are_all_measurements_terminal()
+    C.append(Cfg('drop_terminal_measurements', '', lambda c, context: t.drop_terminal_measurements(c, context=cirq.TransformerContext(deep=True, tags_to_ignore=context.tags_to_ignore)), 'special',
+                 kinds=('terminal-nc', 'terminal-nc', 'measured-nocc'), contract='drop_terminal', sub_exempt=True, deep=False, expect_raise=raises_documented(ValueError, not_terminal)))
+    C.append(Cfg('lightcone_filter', '', ctx_call(t.lightcone_filter), 'special', kinds=('measured', 'terminal'), contract='records', ignore=False, deep=False, sub_exempt=True))
     return C
 
 
 # --------------------------------------------------------------------------------------------------------------------
 def run_case(ctx, cirq, cfg, circuit, kind, deep, ignore, checks, case_no):
     """Runs one transformer configuration on one circuit; python oracles immediately, Coq checks appended to `checks`."""
-    rng = ctx.rng
+    import random
+    rng = random.Random(f'{ctx.seed}:{case_no}')        # per-case stream: a case replays alone
     context = cirq.TransformerContext(deep=deep, tags_to_ignore=(IGN,) if ignore else ())
     desc = f'{cfg.id} deep={deep} tags_to_ignore={(IGN,) if ignore else ()} on {str(circuit)[:600]}'
     rep = dict(config=cfg.id, deep=deep, ignore=ignore, circuit=repr(circuit), diagram=str(circuit), circuit_kind=kind)
     before = snapshot(cirq, circuit)
     frozen_copy = circuit.freeze() if rng.random() < 0.3 else None
     arg = frozen_copy if frozen_copy is not None else circuit
+    if getattr(cfg, 'probe', None) is not None:
+        cfg.probe.saw_ignored = False
+    rep['prng_seed'] = rng.randrange(1 << 30)
+    GAUGE_SEED[0] = rep['prng_seed']
     try:
         out = cfg.call(arg, context)
     except Exception as e:
@@ -460,8 +704,20 @@ def run_case(ctx, cirq, cfg, circuit, kind, deep, ignore, checks, case_no):
         if changed:
             ctx.violation(f'{cfg.name}:subcircuit-rewritten', f'{cfg.id}: a sub-circuit was rewritten although deep=False: {changed[:2]!r}; {desc}',
                           dict(kind='subcircuit', changed=repr(changed), output=repr(out), **rep))
+    if ignore and getattr(cfg, 'probe', None) is not None and cfg.probe.saw_ignored:
+        ctx.violation(f'{cfg.name}:callback-saw-ignored-op', f'{cfg.id}: the user callback was called with an operation carrying an ignored tag; {desc}', dict(kind='ignored-callback', **rep))
+    if cfg.perm:
+        a, b = list(circuit.all_operations()), list(out.all_operations())
+        if multiset_missing(a, b) or multiset_missing(b, a):
+            ctx.violation(f'{cfg.name}:not-a-permutation', f'{cfg.id}: the output operations are not a permutation of the input operations; {desc}\noutput:\n{out}', dict(kind='permutation', output=repr(out), **rep))
     # semantic comparison through the reference semantics
-    ops_in, ops_out = flatten_ops(cirq, circuit), flatten_ops(cirq, out)
+    c_in, c_out = circuit, out
+    if cirq.is_parameterized(circuit) or cirq.is_parameterized(out):
+        names = sorted(cirq.parameter_names(circuit) | cirq.parameter_names(out))
+        resolver = {nm: round(rng.uniform(-1.5, 1.5), 3) for nm in names}
+        rep['resolver'] = resolver
+        c_in, c_out = cirq.resolve_parameters(circuit, resolver), cirq.resolve_parameters(out, resolver)
+    ops_in, ops_out = flatten_ops(cirq, c_in), flatten_ops(cirq, c_out)
     nontrivial = len(ops_in) >= 2 and (out != circuit)
     sem_kind = None
     try:
@@ -527,9 +783,9 @@ def evaluate(ctx, checks):
 
 def report(ctx, checks, failed):
     by_case = {}
-    for i in failed:
+    for i in sorted(failed):
         by_case.setdefault(checks[i]['case'], {})[checks[i]['what']] = checks[i]
-    for case, d in by_case.items():
+    for case, d in sorted(by_case.items()):
         if 'semantics' in d:
             c = d['semantics']
             cfg = c['cfg']
@@ -570,7 +826,7 @@ def run(ctx):
     for cfg in configs:
         n = max(3, int(round(16 * cfg.n * mult)))
         for _ in range(n):
-            circuit, kind = gen_circuit(cirq, ctx.rng, cfg.kinds, tags=cfg.tags, nest=cfg.nest)
+            circuit, kind = gen_circuit(cirq, ctx.rng, cfg.kinds, tags=cfg.tags, nest=cfg.nest, mods=mods)
             deep = cfg.deep and ctx.rng.random() < 0.4
             ignore = cfg.ignore and ctx.rng.random() < 0.5
             case_no += 1
